@@ -216,6 +216,186 @@ def rule_memo(ctx, prop, rule, regs):
     return rr
 
 
+
+def _defs_of(f, name):
+    """Every expression a local name is bound from (assignments - also tuple
+    unpacking and chained targets -, augmented assignments, loop targets)."""
+    from ..model import own_nodes
+    out = []
+    for n in own_nodes(f):
+        if isinstance(n, ast.Assign):
+            for t in n.targets:
+                if isinstance(t, ast.Name) and t.id == name:
+                    out.append(n.value)
+                elif isinstance(t, (ast.Tuple, ast.List)):
+                    if isinstance(n.value, (ast.Tuple, ast.List)) and len(
+                            t.elts) == len(n.value.elts):
+                        for tt, vv in zip(t.elts, n.value.elts):
+                            if isinstance(tt, ast.Name) and tt.id == name:
+                                out.append(vv)
+                    elif any(isinstance(x, ast.Name) and x.id == name
+                             for x in ast.walk(t)):
+                        out.append(n.value)
+        elif isinstance(n, ast.AugAssign) and isinstance(
+                n.target, ast.Name) and n.target.id == name:
+            out.append(n.value)
+        elif isinstance(n, ast.For) and any(
+                isinstance(x, ast.Name) and x.id == name
+                for x in ast.walk(n.target)):
+            out.append(n.iter)
+    return out
+
+
+def _access_deps(ctx, f, e, loc, depth=0, seen=None):
+    """Dependencies of expression e on the locals of f, following single local
+    definitions.  Returns (whole, parts, lossy): names used as a whole, name ->
+    set of constant keys (None = unknown key) for names only subscripted /
+    .get()-ed, and names that enter only through a filtering comprehension or
+    a key function that filters."""
+    from ..model import own_nodes
+    from ..util import assigned_value
+    seen = set() if seen is None else seen
+    whole, parts, lossy = set(), {}, set()
+    if depth > 4:
+        return whole, parts, lossy
+    comp_vars = {}
+    for x in ast.walk(e):
+        if isinstance(x, ast.comprehension):
+            for t in ast.walk(x.target):
+                if isinstance(t, ast.Name):
+                    comp_vars[t.id] = x.iter
+    consumed = set()
+
+    def const_keys(k):
+        """Constant keys a subscript/get key expression may take."""
+        if isinstance(k, ast.Constant):
+            return {k.value}
+        if isinstance(k, ast.Name) and k.id in comp_vars:
+            it = comp_vars[k.id]
+            if isinstance(it, (ast.Tuple, ast.List)) and all(
+                    isinstance(z, ast.Constant) for z in it.elts):
+                return {z.value for z in it.elts}
+            if isinstance(it, (ast.Name, ast.Attribute)):
+                r = ctx.cg.resolve_name_expr(f, it)
+                if r and r[0] == 'var':
+                    av = ctx.ev.module_env(r[1]).get(r[2])
+                    els = ctx.ev.iterate(av) if av is not None else None
+                    if els and all(is_const(z) for z in els):
+                        return {z.v for z in els}
+        return {None}
+
+    for x in ast.walk(e):
+        base = key = None
+        if isinstance(x, ast.Subscript) and isinstance(x.value, ast.Name):
+            base, key = x.value, x.slice
+        elif isinstance(x, ast.Call) and isinstance(x.func, ast.Attribute) and \
+                x.func.attr == 'get' and isinstance(x.func.value, ast.Name) \
+                and x.args:
+            base, key = x.func.value, x.args[0]
+        if base is not None and base.id in loc and base.id not in comp_vars:
+            parts.setdefault(base.id, set()).update(const_keys(key))
+            consumed.add(id(base))
+    for x in ast.walk(e):
+        if isinstance(x, ast.Name) and isinstance(x.ctx, ast.Load) and \
+                x.id in loc and x.id not in comp_vars and id(x) not in consumed:
+            whole.add(x.id)
+    for x in ast.walk(e):
+        if isinstance(x, (ast.ListComp, ast.GeneratorExp, ast.SetComp,
+                          ast.DictComp)):
+            for g in x.generators:
+                if g.ifs:
+                    lossy |= {y.id for y in ast.walk(g.iter)
+                              if isinstance(y, ast.Name) and y.id in loc}
+        if isinstance(x, ast.Call) and isinstance(x.func, (ast.Name,
+                                                           ast.Attribute)):
+            r = ctx.cg.resolve_name_expr(f, x.func)
+            if r and r[0] == 'func' and r[1].fq not in seen:
+                g = r[1]
+                gloc = ctx.cg.locals_of(g)
+                for ret in [n.value for n in own_nodes(g) if isinstance(
+                        n, ast.Return) and n.value is not None]:
+                    _w, _p, gl = _access_deps(ctx, g, ret, gloc, depth + 1,
+                                              seen | {g.fq})
+                    for i, a in enumerate(x.args):
+                        if i < len(g.params) and g.params[i] in gl:
+                            lossy |= {y.id for y in ast.walk(a)
+                                      if isinstance(y, ast.Name) and y.id in loc}
+    # replace locals by what their definitions depend on
+    params = set(f.all_params)
+    for nme in sorted(whole):
+        if nme in params or nme in seen:
+            continue
+        vals = _defs_of(f, nme)
+        if not vals:
+            continue
+        whole.discard(nme)
+        for v in vals:
+            w2, p2, l2 = _access_deps(ctx, f, v, loc, depth + 1, seen | {nme})
+            whole |= w2
+            for k, v2 in p2.items():
+                parts.setdefault(k, set()).update(v2)
+            lossy |= l2
+    for nme in list(parts):
+        if nme in whole:
+            parts.pop(nme)
+    return whole, parts, lossy
+
+
+def _judge_key(ctx, rr, f, rel, n, D, K, V, kn, loc):
+    from ..model import norm_src
+    from ..util import key_of
+    dn = {x.id for x in ast.walk(D) if isinstance(x, ast.Name)}
+    kw, kp, klossy = _access_deps(ctx, f, K, loc)
+    vw, vp, _vl = _access_deps(ctx, f, V, loc)
+    knames = {x.id for x in ast.walk(K) if isinstance(x, ast.Name)}
+    # the key variable itself may appear in the value (`a, b = key`)
+    vw -= knames
+    missing = []
+    for nme in sorted(vw - kw - dn):
+        if nme in kp:
+            missing.append('%s (the key uses only %s of it)' % (nme, ', '.join(
+                repr(k) for k in sorted(kp[nme], key=str))))
+        else:
+            missing.append(nme)
+    for nme, keys in sorted(vp.items()):
+        if nme in kw or nme in dn or nme in knames:
+            continue
+        have = kp.get(nme)
+        if have is None:
+            missing.append(nme)
+        elif None in have or None in keys:
+            continue  # dynamic keys on both sides: not decidable, not reported
+        elif not keys <= have:
+            missing.append('%s[%s]' % (nme, ', '.join(
+                repr(k) for k in sorted(keys - have, key=str))))
+    partial = sorted((vw | set(vp)) & klossy)
+    if missing:
+        rr.fail(key_of(f, 'cache key %s misses %s' % (
+            norm_src(K), ','.join(m.split(' ')[0] for m in missing))),
+            '%s caches `%s` under the key `%s`, but the value is '
+            'computed from %s, which the key does not identify: '
+            'entries that differ only there collide (e.g. same-titled '
+            'sheets of two workbooks, the same [n] index under different '
+            'link tables)' % (
+                f.qualname, norm_src(V)[:80], norm_src(K), '; '.join(missing)),
+            file=rel, function=f.qualname, line=n.lineno)
+    elif partial:
+        rr.fail(key_of(f, 'cache key %s keeps only part of %s' % (
+            norm_src(K), ','.join(partial))),
+            '%s caches `%s` under the key `%s`; the key is built from %s '
+            'through a filter (a comprehension with a condition), while the '
+            'value is computed from all of it: two calls that differ only in '
+            'the filtered-out part share one entry (e.g. the same [n] index '
+            'with different external-link tables)' % (
+                f.qualname, norm_src(V)[:80], norm_src(K), ', '.join(partial)),
+            file=rel, function=f.qualname, line=n.lineno)
+    else:
+        rr.ok('%s: cache `%s[%s] = %s` - the key names everything '
+              'the value is computed from' % (
+                  f.qualname, norm_src(D), norm_src(K),
+                  norm_src(V)[:80]), '%s:%d' % (rel, n.lineno))
+
+
 def rule_cachekey(ctx, prop, rule, modules):
     """`if K not in D: D[K] = V` with a computed key: the key must mention every
     local the cached value is computed from (otherwise two different values
@@ -246,26 +426,46 @@ def rule_cachekey(ctx, prop, rule, modules):
                 rr.instances += 1
                 V = stores[0].value
                 kn = {x.id for x in ast.walk(K) if isinstance(x, ast.Name)}
-                vn = {x.id for x in ast.walk(V) if isinstance(x, ast.Name)
-                      and x.id in loc}
-                dn = {x.id for x in ast.walk(D) if isinstance(x, ast.Name)}
-                # a bare-name key stands for the object itself
-                missing = sorted(vn - kn - dn)
-                if missing:
-                    rr.fail(key_of(f, 'cache key %s misses %s' % (
-                        norm_src(K), ','.join(missing))),
-                        '%s caches `%s` under the key `%s`, but the value is '
-                        'computed from %s, which the key does not identify: '
-                        'entries for different %s collide (e.g. same-titled '
-                        'sheets of two workbooks)' % (
-                            f.qualname, norm_src(V), norm_src(K),
-                            ', '.join(missing), '/'.join(missing)),
-                        file=rel, function=f.qualname, line=n.lineno)
-                else:
-                    rr.ok('%s: cache `%s[%s] = %s` - the key names everything '
-                          'the value is computed from' % (
-                              f.qualname, norm_src(D), norm_src(K),
-                              norm_src(V)), '%s:%d' % (rel, n.lineno))
+                _judge_key(ctx, rr, f, rel, n, D, K, V, kn, loc)
+                continue
+            # try: v = D[K] / except KeyError: ... D[K] = v
+            for n in own_nodes(f):
+                if not isinstance(n, ast.Try):
+                    continue
+                look = [x for st in n.body for x in ast.walk(st)
+                        if isinstance(x, ast.Subscript) and isinstance(
+                            x.ctx, ast.Load) and isinstance(
+                            x.value, (ast.Name, ast.Attribute))]
+                hs = [h for h in n.handlers if h.type is not None and
+                      'KeyError' in norm_src(h.type)]
+                if not look or not hs:
+                    continue
+                for lk in look:
+                    D, K = lk.value, lk.slice
+                    stores = [x for h in hs for st in h.body
+                              for x in ast.walk(st)
+                              if isinstance(x, ast.Assign) and any(
+                                  isinstance(t, ast.Subscript) and
+                                  norm_src(t.value) == norm_src(D) and
+                                  norm_src(t.slice) == norm_src(K)
+                                  for t in x.targets)]
+                    if not stores:
+                        continue
+                    r = ctx.cg.resolve_name_expr(f, D)
+                    if not (r and r[0] == 'var') and not isinstance(
+                            D, ast.Attribute):
+                        continue  # a per-call local mapping
+                    rr.instances += 1
+                    V = stores[0].value
+                    if isinstance(V, ast.Name):
+                        # the value computed in the handler
+                        from ..util import assigned_value
+                        vs = [v for v in assigned_value(f, V.id)
+                              if any(v is y for h in hs for st in h.body
+                                     for y in ast.walk(st))]
+                        V = ast.Tuple(elts=vs, ctx=ast.Load()) if vs else V
+                    kn = {x.id for x in ast.walk(K) if isinstance(x, ast.Name)}
+                    _judge_key(ctx, rr, f, rel, n, D, K, V, kn, loc)
     return rr
 
 
@@ -378,3 +578,17 @@ def rule_slotmemo(ctx, prop, rule, funcs, floor=1):
                 rr.ok('%s: `%s[%r]` is computed from `%s` alone' % (
                     f.qualname, P, key, P), '%s:%d' % (f.module.rel, n.lineno))
     return rr
+
+
+def nomut_for(ctx, prop, rule, regs, floor):
+    """C07's in-place-write rule restricted to what the given registrations run:
+    their cores, parsers and bound arguments, plus the shared wrappers/helpers."""
+    from .c07 import rule_nomut
+    allowed = set()
+    for reg in regs:
+        fs, _ = reg_targets(ctx, reg, include_wrappers=True)
+        allowed |= {f.fq for f in fs}
+    return rule_nomut(
+        ctx, prop, rule, floor=floor,
+        only=lambda f, role: f.fq in allowed or role.startswith(
+            ('wrapper', 'wrap_ufunc', 'helper')))
